@@ -158,6 +158,41 @@ theorem transpose_chain (S₀ S₁ : Slicer) (c₀ c₁ : List Core)
       | cons b B => simp [ofCores, chain, bind, Except.bind, pure, Except.pure]
   · rfl
 
+/-- Transposing twice gives back the projection matrix, both at the level of the matrix
+    (`(Pᵀ)ᵀ = P`) and of the geometry (`S.T.T` has the index lists and sizes of `S`, hence the same matrix
+    for every operand size, and — for a well-formed `S` — slices every list of rows exactly as `S` does). -/
+theorem transpose_involutive (c : Core) (n : Nat) :
+    transposeMat (transposeMat (projMatrix c n) n) c.ranSize = projMatrix c n ∧
+    projMatrix c.transpose.transpose n = projMatrix c n ∧
+    (c.WF → ∀ {α} (x : List α) (z : α), sliceRows c.transpose.transpose x z = sliceRows c x z) := by
+  refine ⟨?_, rfl, ?_⟩
+  · simp only [projMatrix, transposeMat, col, List.map_map]
+    apply List.map_congr_left
+    intro r hr
+    apply List.ext_getElem (by simp)
+    intro j h1 h2
+    have hr' : r < c.ranSize := List.mem_range.mp hr
+    have hj : j < n := by simpa using h2
+    simp only [Function.comp, List.getElem_map, List.getElem_range]
+    rw [getD_of_lt _ _ _ (by simpa using hr')]
+    simp only [List.getElem_map, List.getElem_range, Function.comp]
+    rw [getD_of_lt _ _ _ (by simpa using hj)]
+    simp
+  · intro hwf α x z
+    have hwf' : c.transpose.transpose.WF := ⟨hwf.1, hwf.2.1, hwf.2.2.1, by intro ho; cases ho⟩
+    rw [sliceRows_eq_scatter c hwf, sliceRows_eq_scatter _ hwf']
+    rfl
+
+/-- The `is_transposed` flag quirk: `transpose` negates the flag of the *fresh* object, so `S.T.T` (which acts
+    exactly as `S`, see `transpose_involutive`) still reports "transposed"; also `is_onto` is not restored. -/
+example : ∀ c : Core,
+    c = { dom := [0, 2], ran := [0, 1], domSize := 3, ranSize := 2, isOnto := true, transposed := false } →
+    c.transpose.transposed = true ∧ c.transpose.transpose.transposed = true ∧
+    c.transpose.transpose.isOnto = false ∧
+    c.transpose.transpose.dom = c.dom ∧ c.transpose.transpose.ran = c.ran ∧
+    sliceRows c.transpose.transpose [10, 20, 30] (0 : Rat) = sliceRows c [10, 20, 30] 0 := by
+  intro c hc; subst hc; decide +kernel
+
 /-! ## chaining and pending operations -/
 
 /-- `(S₀ @ S₁) @ y = S₀ @ (S₁ @ y)`: chaining is composition (errors propagate). -/
@@ -208,6 +243,34 @@ theorem pending_eq (S : Slicer) (a : Const) (op : BinOp) (y : Val) :
       show (applySteps [Step.left a op] z') = applyLeft op a z'
       simp only [applySteps, applyStep]
       cases applyLeft op a z' <;> rfl
+
+/-- `(s / S) @ y` for an AdArray result `S @ y = (v, J)`: the forward-mode rule of `s / x` applied to the SLICED
+    array — value `s / vᵢ`, Jacobian row `i` of `J` scaled by `-s / vᵢ²` (division by zero reported). -/
+theorem pending_div_ad (S : Slicer) (s : Rat) (y : Val) (v : Vec) (J : SpMat) (h : S.apply y = .ok (.ad v J)) :
+    ((rop S (.scal s) .div).apply y).map obs = divAd s v J.ncols J.toDense := by
+  rw [pending_eq, h]
+  show (applyLeft .div (.scal s) (.ad v J)).map obs = _
+  simp only [applyLeft, obs, specLeft, specLeft₀]
+  cases divAd s v J.ncols J.toDense with
+  | error e => rfl
+  | ok d => simp [Functor.map, Except.map, obs_ofD]
+
+/-- `(s ** S) @ y` for an AdArray result `(v, J)` with integral `v`: value `s ** vᵢ`, Jacobian row `i` scaled by
+    `s ** vᵢ · L`, `L` being the value used for `ln s`. -/
+theorem pending_pow_ad (S : Slicer) (s L : Rat) (y : Val) (v : Vec) (J : SpMat) (h : S.apply y = .ok (.ad v J)) :
+    ((rop S (.scalLn s L) .pow).apply y).map obs = powAd s L v J.ncols J.toDense := by
+  rw [pending_eq, h]
+  show (applyLeft .pow (.scalLn s L) (.ad v J)).map obs = _
+  simp only [applyLeft, obs, specLeft]
+  cases powAd s L v J.ncols J.toDense with
+  | error e => rfl
+  | ok d => simp [Functor.map, Except.map, obs_ofD]
+
+/-- The Jacobian scale of `divAd` is the derivative of `x ↦ s / x`: the secant slope between `v` and `v + h`
+    is `-s / (v (v + h))`, whose value at `h = 0` is the `-s / v²` used by the rule. -/
+theorem div_rule_secant (s v h : Rat) (hv : v ≠ 0) (hvh : v + h ≠ 0) :
+    s / (v + h) - s / v = (-s / (v * (v + h))) * h := by
+  grind
 
 /-- A slicer with any pending operations (chains, operand operations, transposed geometries), applied to any
     rectangular operand, equals its specification: explicit projection matrices and the operand operations. -/
@@ -541,6 +604,18 @@ example :
             .apply 1 (.scal 4)]
       = [none, none, none, some (.ok (.vec [30, 10])), some (.ok (.vec [10, 30])), none, some (.ok (.vec [60, 20])),
          none, some (.ok (.vec [1, 0, 2])), some (.ok (.ad [10, 30] 2 [[0, 5], [7, 0]])), some (.ok (.vec [4, 4]))] := by
+  decide +kernel
+
+/-- `3 / S @ ad`, `2 ** S @ ad` with `S = AS(dom=[1,0])`, `ad = ((2,4), [[1,0],[0,1]])`, `ln 2 ≈ 7/10` as data -/
+example :
+    run [] [.new 0 (some [1, 0]) none none none, .rop 1 0 (.scal 3) .div, .rop 2 0 (.scalLn 2 (7/10)) .pow,
+            .apply 1 (.ad [2, 4] (.raw { ncols := 2, indptr := [0, 1, 2], indices := [0, 1], data := [1, 1] })),
+            .apply 2 (.ad [2, 3] (.raw { ncols := 2, indptr := [0, 1, 2], indices := [0, 1], data := [1, 1] })),
+            .apply 1 (.ad [0, 4] (.raw { ncols := 2, indptr := [0, 1, 2], indices := [0, 1], data := [1, 1] }))]
+      = [none, none, none,
+         some (.ok (.ad [3/4, 3/2] 2 [[0, -3/16], [-3/4, 0]])),
+         some (.ok (.ad [8, 4] 2 [[0, 28/5], [14/5, 0]])),
+         some (.error .zeroDiv)] := by
   decide +kernel
 
 example : ProgGood [.new 0 (some [1, 0]) none none none, .new 1 (some [0, 2]) none none none, .chain 2 0 1,
